@@ -253,6 +253,8 @@ class Bundle:
             raise RuntimeError(msg)
         # Special case(s)
         if key == "name":
+            if val is not None and not isinstance(val, str):
+                raise TypeError(f"Bundle name must be a string, not {val}")
             return super().__setattr__(key, val)
         if key == "roles":
             if isinstance(val, EnumMeta):
